@@ -228,6 +228,18 @@ func (c04) build(c *mon.Ctx, workload string, i int64) c04Case {
 		gt.Assign("=", gt.Index("s", gt.Int(0)), gt.Str("via-slice")),
 		gt.Assign("=", gt.Index("l", gt.Int(-1)), gt.Str("via-list")),
 		gt.Call("p", gt.Ident("l"), gt.Ident("s")),
+		// a literal evaluated again must be a fresh value, at every depth
+		gt.For(gt.Assign("=", gt.Ident("zi"), gt.Int(0)), gt.Bin("<", gt.Ident("zi"), gt.Int(2)), gt.Assign("=", gt.Ident("zi"), gt.Bin("+", gt.Ident("zi"), gt.Int(1))),
+			gt.Assign("=", gt.Ident("g"), gt.List(gt.List(gt.Int(0), gt.Str("z")), gt.List(gt.Int(1), gt.List(gt.Int(2))), gt.Int(3))),
+			gt.Call("p", gt.Ident("g")),
+			gt.Assign("=", gt.Index("g", gt.Int(0), gt.Int(int64(c.R.Intn(2)))), gt.Str("w")),
+			gt.Assign("+=", gt.Index("g", gt.Int(1), gt.Int(1), gt.Int(0)), gt.Int(5)),
+			gt.Assign("=", gt.Ident("h"), gt.Map(gt.Str("k"), gt.List(gt.Int(1), gt.Map(gt.Str("d"), gt.Int(0))))),
+			gt.Call("p", gt.Ident("h")),
+			gt.Assign("=", gt.Index("h", gt.Str("k"), gt.Int(1), gt.Str("d")), gt.Ident("zi")),
+			gt.Assign("*=", gt.Index("h", gt.Str("k"), gt.Int(0)), gt.Int(7)),
+			gt.Assign("=", gt.Index("g", gt.Int(2)), gt.Str("third")),
+		),
 	}
 	writes := false
 	gt.WalkStmts(stmts, func(t *gt.T) {
@@ -289,6 +301,17 @@ func (k c04) Run(c *mon.Ctx, workload string, i int64) {
 	if r := compareRun(ro, mo, cmpOpts{Point: model, RealPoint: real}); r != nil {
 		c.Violate(r.Class+":"+workload, fmt.Sprintf("%s\n--- program\n%s", r.Detail, src), info)
 		return
+	}
+	if workload == "alias-programs" && mo.Unspecified == "" && !mo.Shared.MapOrderDependent {
+		// values built by one run (literals, containers) must not leak into
+		// the next run of the same loaded script
+		real2 := drive.PointFromModel(mp)
+		ro2 := drive.RunV1(script, real2, &drive.RunState{Budget: realBudget(mo.Shared.Steps)})
+		c.Eval(1)
+		if r := compareRun(ro2, mo, cmpOpts{Point: model, RealPoint: real2}); r != nil {
+			c.Violate("second-run-differs:"+r.Class, fmt.Sprintf("the SECOND run of the same loaded script differs from the reference: %s\n--- program\n%s", r.Detail, src), info)
+			return
+		}
 	}
 	if c.WantSample() && mo.Unspecified == "" && mo.Err == nil && (workload == "alias-programs" || i%7919 == 11) && len(src) < 600 {
 		ev := []string{}
